@@ -1269,6 +1269,14 @@ func readMultipartForm(r io.Reader, boundary string, size, maxInMemoryFileSize i
 	if err != nil {
 		return nil, fmt.Errorf("cannot read multipart/form-data body: %w", err)
 	}
+	// The multipart reader stops at the closing boundary. Whatever is left of
+	// the size bytes that frame this body (the epilogue) still belongs to it and
+	// must be consumed, otherwise it is parsed as the next message on the
+	// connection.
+	if _, err = io.Copy(io.Discard, lr); err != nil {
+		f.RemoveAll() //nolint:errcheck
+		return nil, fmt.Errorf("cannot read multipart/form-data body: %w", err)
+	}
 	return f, nil
 }
 
